@@ -5,6 +5,9 @@
   being the only coupling between wavenumbers.
 -/
 import Proofs.C13Lemmas
+import Proofs.C13Columns
+import Props.C01
+import Props.C02
 
 namespace Taurex.C13
 open Taurex.Grid Taurex.C13L
@@ -71,5 +74,77 @@ theorem other_grid_between (nativeWn vals req : List ℝ) (lo hi : ℝ)
 
 -- non-vacuity: a request between native points of a 4-point grid satisfies the hypotheses of `other_grid_between`
 example : ([1, 2, 3, 4] : List ℝ).Pairwise (· ≤ ·) := by norm_num
+
+/-! ### the forward model is column-wise (transmission; the C01 model) -/
+
+open Taurex.Transmission in
+/-- **column_independent (no early exit)**: evaluating the transmission model on any selection `σ` of the
+    wavenumber columns (a sub-range, a clipped grid, any subset in any order) gives, at every selected column,
+    exactly the value of the full computation at that wavenumber — optical depth and transit depth alike. -/
+theorem column_independent_trans (σ : ℕ → ℕ) (newMethod : Bool) (rp rs : ℝ) (n nwn nwn' : ℕ)
+    (zb z dz dens : ℕ → ℝ) (cs : List (Contrib ℝ)) (w : ℕ) :
+    (∀ l, modelTrans false newMethod rp n nwn' zb z dz dens (cs.map (reindex σ)) l w
+        = modelTrans false newMethod rp n nwn zb z dz dens cs l (σ w)) ∧
+    modelDepth false newMethod rp rs n nwn' zb z dz dens (cs.map (reindex σ)) w
+      = modelDepth false newMethod rp rs n nwn zb z dz dens cs (σ w) := by
+  have h : ∀ l, modelTrans false newMethod rp n nwn' zb z dz dens (cs.map (reindex σ)) l w
+        = modelTrans false newMethod rp n nwn zb z dz dens cs l (σ w) := by
+    intro l
+    simp only [modelTrans, Bool.false_eq_true, if_false, tauFull]
+    rw [tauFullFrom_reindex σ n _ dens l cs (fun _ => 0) (fun _ => 0) (fun _ => rfl) w]
+  refine ⟨h, ?_⟩
+  unfold modelDepth
+  simp only [h]
+
+open Taurex.Transmission in
+/-- **column_within_cutoff**: with the `tau.min() > 10` early exit (the only coupling between wavenumbers), the
+    optical depth of a selected column in the restricted run and in the full run are both bounded by the full
+    sum and each either equals it or is already above 10 — so the two transmittances differ by at most
+    `exp(-10)` (the licensed band of C01). -/
+theorem column_within_cutoff (σ : ℕ → ℕ) (n nwn nwn' : ℕ) (path dens : ℕ → ℝ) (l : ℕ)
+    (hp : ∀ k < n - l, 0 ≤ path k) (hd : ∀ j < n, 0 ≤ dens j) (cs : List (Contrib ℝ))
+    (hcs : ∀ c ∈ cs, c.Nonneg) (w : ℕ) (hw : w < nwn') (hσ : σ w < nwn) :
+    let full := tauFull n path dens l cs (σ w)
+    let tR := tauCut n nwn' path dens l (cs.map (reindex σ)) w
+    let tF := tauCut n nwn path dens l cs (σ w)
+    tR ≤ full ∧ (tR = full ∨ 10 < tR) ∧ tF ≤ full ∧ (tF = full ∨ 10 < tF) := by
+  have hcs' : ∀ c ∈ cs.map (reindex σ), c.Nonneg := by
+    intro c hc
+    obtain ⟨c0, h0, rfl⟩ := List.mem_map.1 hc
+    intro l' wn'; exact hcs c0 h0 l' (σ wn')
+  obtain ⟨a1, a2⟩ := Taurex.C01.cutoff_licensed n nwn' path dens l hp hd (cs.map (reindex σ)) hcs'
+  obtain ⟨b1, b2⟩ := Taurex.C01.cutoff_licensed n nwn path dens l hp hd cs hcs
+  have e : tauFull n path dens l (cs.map (reindex σ)) w = tauFull n path dens l cs (σ w) := by
+    unfold tauFull
+    exact tauFullFrom_reindex σ n path dens l cs (fun _ => 0) (fun _ => 0) (fun _ => rfl) w
+  refine ⟨by rw [← e]; exact a1 w, ?_, b1 (σ w), ?_⟩
+  · rcases a2 with h | h
+    · left; rw [← e]; exact h w
+    · right; exact h w hw
+  · rcases b2 with h | h
+    · left; exact h (σ w)
+    · right; exact h (σ w) hσ
+
+/-! ### emission (the C02 model) -/
+
+open Taurex.Emission in
+/-- **column_within_clamp (emission)**: the documented (unclamped) emission intensity of a column,
+    `intensityUncut`, does not take the other columns as an argument at all; the code's clamped intensity does, only
+    through the `x.min() < 10` clamp, and for any two sets of computed columns `cols₁`, `cols₂` (the full native grid
+    and a restricted grid, say) containing the column the two results differ by at most `exp(-10)` times the source
+    functions of the layers clamped in either run. -/
+theorem column_within_clamp_emission (k : PC ℝ) (cols₁ cols₂ : List (Col ℝ)) (dz dens temps : List ℝ) (col : Col ℝ)
+    (tmin tmax m : ℝ) (hv₁ : Taurex.C02.Valid k cols₁ dz dens temps col tmin tmax)
+    (hv₂ : Taurex.C02.Valid k cols₂ dz dens temps col tmin tmax) (hm : 1 ≤ m) :
+    |intensity k cols₁ dz dens temps m col - intensity k cols₂ dz dens temps m col|
+      ≤ Real.exp (-10) * (((rowsOf k cols₁ dz dens temps col).map (fun r => if r.keepD then 0 else r.b)).sum
+          + ((rowsOf k cols₂ dz dens temps col).map (fun r => if r.keepD then 0 else r.b)).sum) := by
+  have h1 := Taurex.C02.clamp_band k cols₁ dz dens temps col tmin tmax m hv₁ hm
+  have h2 := Taurex.C02.clamp_band k cols₂ dz dens temps col tmin tmax m hv₂ hm
+  have e : intensity k cols₁ dz dens temps m col - intensity k cols₂ dz dens temps m col
+      = (intensity k cols₁ dz dens temps m col - intensityUncut k dz dens temps m col)
+        - (intensity k cols₂ dz dens temps m col - intensityUncut k dz dens temps m col) := by ring
+  rw [e, mul_add]
+  exact le_trans (abs_sub _ _) (add_le_add h1 h2)
 
 end Taurex.C13
